@@ -144,7 +144,7 @@ def run(ctx, replay_cases=None):
             if k is None:
                 n_unknown += 1
                 key = json.dumps(cls, sort_keys=True)
-                if key not in shrunk and len(shrunk) < 3:       # shrink the first few unexplained failures
+                if key not in shrunk and len(shrunk) < 2:       # shrink the first few unexplained failures
                     small = L.shrink_tree(tool, ctx, c, "c13", lambda x, key=key: key in failing_keys(x))
                     shrunk[key] = slim(small)
                 case = shrunk.get(key, case)
@@ -238,6 +238,7 @@ def run(ctx, replay_cases=None):
     ctx.assumptions = ["the byte->tree stage (yaml.v2) is library code: not verified, exercised by the raw-bytes stream for crashes only",
                        "theorems about `build` hold for every decoded definition and every value of the library parameters; "
                        "the premises of the _partial theorems are the excluded input classes (known findings F13a-g)"]
+    cron_agreement(ctx, trees)
     if ctx.tier == "thorough":
         ctx.coqchk()
 
@@ -251,6 +252,35 @@ def run(ctx, replay_cases=None):
                         return {"what": what, "class": cls, "case": slim(c)}
         return None
     return ctx.finish(search=search)
+
+
+def cron_agreement(ctx, trees):
+    """Optional: the cron parameter of the model can be instantiated by Cron.parse (coq/Loader/CronPlug.v, built on
+    the Cron family's model).  Here the two are compared on the schedule strings of this run; a disagreement is
+    reported as a note (it concerns the Cron model, which C09 checks), never as a failure of C13."""
+    verdicts = {}
+    for c in trees:
+        for s in L.schedule_strings(c["tree"]):
+            if s in c["oracle"]["cron"]:
+                verdicts[s] = c["oracle"]["cron"][s]
+    try:
+        ok, out, dt = vlib.coq_make(["Loader/CronPlug.vo"])
+        if not ok:
+            ctx.cov["cron_model_agreement"] = "Loader/CronPlug.vo does not build (Cron model unavailable)"
+            return
+        strs = sorted(verdicts)
+        txt = (L.HEADER + "From BD.Loader Require Import CronPlug.\nDefinition VV := Eval vm_compute in map verdict_code %s.\nPrint VV.\n"
+               % vlib.clist([L.cstring(s) for s in strs]))
+        rc, out, dt = L.coq_eval(ctx.scratch, "cron_agree", txt)
+        got = vlib.coq_list_result(out, "VV") if rc == 0 else None
+        if got is None or len(got) != len(strs):
+            ctx.cov["cron_model_agreement"] = "not evaluated"
+            return
+        diff = [(s, verdicts[s], g) for s, g in zip(strs, got) if verdicts[s] != g]
+        ctx.cov["cron_model_agreement"] = {"strings": len(strs), "agree": len(strs) - len(diff),
+                                           "differ": [{"spec": s, "robfig": a, "Cron.parse": b} for s, a, b in diff[:10]]}
+    except Exception as e:  # never a failure of this check
+        ctx.cov["cron_model_agreement"] = "skipped: %r" % (e,)
 
 
 def replay(ctx, path):
